@@ -730,13 +730,59 @@ Definition arities_ok : bool :=
     | _ => false
     end) (alts_of p2w_msg).
 
+(* the conversion of every time.Duration field, as gen-conv recognised it in the source (exact known
+   expressions only; anything else is "Unknown: ..."), is the one of the hand-written terms *)
+Definition conv_name (c : conv) : string :=
+  match c with
+  | Copy => "Copy" | DurToSec => "DurToSec" | DurToMs => "DurToMs" | I64ToU64 => "I64ToU64"
+  | SecToDur => "SecToDur" | MsToDur => "MsToDur" | U64ToI64 => "U64ToI64"
+  | _ => ""
+  end.
+Fixpoint index_ofS (s : string) (l : list string) : option nat :=
+  match l with
+  | [] => None
+  | x :: l' => if String.eqb x s then Some 0%nat else option_map S (index_ofS s l')
+  end.
+Definition strip_wrappers (c : conv) : conv :=
+  match c with NilTo _ c0 => c0 | NilOk c0 => c0 | Opt c0 => c0 | _ => c end.
+(* the struct conversion of a wire struct: a message (alternative of the top-level term) or a nested one *)
+Definition struct_term (top : conv) (nested : list (string * conv)) (owner : string) : option conv :=
+  match lookupS owner nested with
+  | Some c => Some (strip_wrappers c)
+  | None => match index_ofS owner w2p_cases with
+            | Some k => option_map (fun a => strip_wrappers (snd a)) (lookupN (N.of_nat k) (alts_of top))
+            | None => None
+            end
+  end.
+Definition field_index (owner field : string) : option nat :=
+  match lookupS owner wire_structs with Some fs => index_ofS field fs | None => None end.
+(* forward: the conversion that READS wire field i *)
+Definition dur_fact_fwd (f : string * (string * string)) : bool :=
+  match struct_term w2p_msg [("message.BaseTime", w_base_time); ("message.DataPoint", w_point)] (fst f),
+        field_index (fst f) (fst (snd f)) with
+  | Some (Struct _ fs), Some i =>
+      match find_src i fs with Some c => String.eqb (conv_name c) (snd (snd f)) | None => false end
+  | _, _ => false
+  end.
+(* backward: the conversion that PRODUCES wire field i *)
+Definition dur_fact_bwd (f : string * (string * string)) : bool :=
+  match struct_term p2w_msg [("message.BaseTime", p_base_time); ("message.DataPoint", p_point)] (fst f),
+        field_index (fst f) (fst (snd f)) with
+  | Some (Struct _ gs), Some i =>
+      match nth_error gs i with Some g => String.eqb (conv_name (snd g)) (snd (snd f)) | None => false end
+  | _, _ => false
+  end.
+Definition dur_facts_ok : bool :=
+  forallb dur_fact_fwd dur_conv_w2p && forallb dur_fact_bwd dur_conv_p2w &&
+  Nat.eqb (List.length dur_conv_w2p) 7 && Nat.eqb (List.length dur_conv_p2w) 7.
+
 Definition source_facts : bool :=
   covered wire_structs w2p_reads && covered wire_structs p2w_writes &&
   covered proto_structs w2p_writes && covered proto_structs p2w_reads &&
   subsetS message_impls w2p_cases && subsetS w2p_cases message_impls &&
   subsetS proto_message_wrappers p2w_cases && subsetS p2w_cases proto_message_wrappers &&
   subsetS (map (fun w => "autogen.Message_" ++ substring 8 (String.length w - 8) w) w2p_cases) p2w_cases &&
-  arities_ok.
+  arities_ok && dur_facts_ok.
 
 Lemma source_facts_hold : source_facts = true.
 Proof. vm_compute. reflexivity. Qed.
